@@ -214,8 +214,90 @@ func (o *fmtOut) badVerb(sp fmtSpec, t types.Type, v value) {
 	o.str(")")
 }
 
-// handleMethods implements fmt's Error()/String()/GoString() protocol.
+// findFormatter returns the target's Format(fmt.State, rune) method, if any.
+func findFormatter(i *interpreter, t types.Type) *ssa.Function {
+	if t == nil || t == rtypeType || t == errorType {
+		return nil
+	}
+	ms := i.prog.MethodSets.MethodSet(t)
+	for k := 0; k < ms.Len(); k++ {
+		sel := ms.At(k)
+		if sel.Obj().Name() != "Format" {
+			continue
+		}
+		sig := sel.Type().(*types.Signature)
+		if sig.Params().Len() == 2 && sig.Results().Len() == 0 && typeName(sig.Params().At(0).Type()) == "fmt.State" {
+			return i.prog.MethodValue(sel)
+		}
+	}
+	return nil
+}
+
+func setField(st structure, t *types.Struct, name string, v value) {
+	for i := 0; i < t.NumFields(); i++ {
+		if t.Field(i).Name() == name {
+			st[i] = v
+			return
+		}
+	}
+}
+
+func getField(st structure, t *types.Struct, name string) (value, types.Type) {
+	for i := 0; i < t.NumFields(); i++ {
+		if t.Field(i).Name() == name {
+			return st[i], t.Field(i).Type()
+		}
+	}
+	return nil, nil
+}
+
+// callFormatter runs the target's Format method against a real (interpreted) fmt.pp
+// used as the fmt.State, and returns what it wrote.
+func callFormatter(fr *frame, m *ssa.Function, recv value, sp fmtSpec) ([]value, bool) {
+	fp := fr.i.prog.ImportedPackage("fmt")
+	if fp == nil || fp.Type("pp") == nil {
+		return nil, false
+	}
+	ppT := fp.Type("pp").Type()
+	ppS := ppT.Underlying().(*types.Struct)
+	var cell value = zero(ppT)
+	pp := cell.(structure)
+	fv, ft := getField(pp, ppS, "fmt")
+	fS := ft.Underlying().(*types.Struct)
+	fst := fv.(structure)
+	flv, flt := getField(fst, fS, "fmtFlags")
+	flS := flt.Underlying().(*types.Struct)
+	fl := flv.(structure)
+	setField(fl, flS, "widPresent", sp.hasWidth)
+	setField(fl, flS, "precPresent", sp.hasPrec)
+	setField(fl, flS, "minus", sp.minus)
+	setField(fl, flS, "plus", sp.plus && sp.verb != 'v')
+	setField(fl, flS, "plusV", sp.plus && sp.verb == 'v')
+	setField(fl, flS, "sharp", sp.sharp && sp.verb != 'v')
+	setField(fl, flS, "sharpV", sp.sharp && sp.verb == 'v')
+	setField(fl, flS, "space", sp.spc)
+	setField(fl, flS, "zero", sp.zero)
+	setField(fst, fS, "wid", sp.width)
+	setField(fst, fS, "prec", sp.prec)
+	state := iface{types.NewPointer(ppT), &cell}
+	call(fr.i, fr, 0, m, []value{recv, state, int32(sp.verb)})
+	buf, _ := getField(cell.(structure), ppS, "buf")
+	out, _ := buf.([]value)
+	return out, true
+}
+
+// handleMethods implements fmt's Formatter / Error() / String() / GoString() protocol.
 func (o *fmtOut) handleMethods(fr *frame, t types.Type, v value, sp fmtSpec) bool {
+	if m := findFormatter(fr.i, t); m != nil {
+		if p, ok := v.(*value); ok && p == nil {
+			o.str("<nil>")
+			return true
+		}
+		if out, ok := callFormatter(fr, m, v, sp); ok {
+			o.b = append(o.b, out...)
+			return true
+		}
+	}
 	if t == errorType {
 		// interpreter-made error: v is a string
 		o.fmtString(fr, v, sp)
@@ -279,6 +361,7 @@ func (o *fmtOut) printValue(fr *frame, t types.Type, v value, sp fmtSpec, depth 
 			case 's', 'v', 'q', 'x', 'X':
 				if sp.verb == 'v' && sp.sharp {
 					sp.verb = 'q'
+					sp.sharp = false
 				}
 				o.fmtString(fr, v, sp)
 			default:
